@@ -28,6 +28,9 @@ Cases ==
   \cup {[k |-> "tbool", v |-> BZero, a |-> o, b |-> 0, octets |-> TLV(0, 1, EncBool(o # 0))] : o \in 0..1}
   \cup UNION {{[k |-> "tenum", v |-> BOfInt(i), a |-> sn[1], b |-> sn[2], octets |-> TLV(0, 10, EncInt(BOfInt(i)))] : i \in 0..(sn[2] + 1)}
               : sn \in {<<3, 3>>, <<2, 4>>}}
+  \* an item list wide enough for indices of two and three content octets
+  \cup {[k |-> "tenum", v |-> BOfInt(i), a |-> 70000, b |-> 70000, octets |-> TLV(0, 10, EncInt(BOfInt(i)))]
+        : i \in {0, 127, 128, 255, 256, 257, 32767, 32768, 65535, 65536, 69999, 70000}}
 
 Init == st = "seed" /\ c \in {"len", "tag", "i64", "u64", "bool", "enum", "tint", "tbool", "tenum"}
 Next == st = "seed" /\ st' = "case" /\ c' \in {x \in Cases : x.k = c}
